@@ -117,6 +117,73 @@ class TracingBackend(object):
         set_state(cur)
 
 
+class BlockVarsRecorder(object):
+    """records every call of the real ControlFlowTransformer._get_block_vars made while the oracle's programs are converted:
+    the contexts the selection formulas are really applied to, and the hypothesis of the loop theorems about them"""
+
+    def __init__(self):
+        self.records = []
+        self.src = None
+
+    def __enter__(self):
+        from malt.converters import control_flow
+        from malt.pyct import anno
+        self.cf = control_flow
+        self.orig = orig = control_flow.ControlFlowTransformer._get_block_vars
+        rec = self
+
+        def wrapped(tr, node, modified):
+            r = orig(tr, node, modified)
+            try:
+                fs = tr.state[control_flow._Function].scope
+                rec.records.append(dict(kind=type(node).__name__, node=node, src=rec.src, modified=set(modified),
+                                        live_in=set(anno.getanno(node, anno.Static.LIVE_VARS_IN)),
+                                        live_out=set(anno.getanno(node, anno.Static.LIVE_VARS_OUT)),
+                                        nonlocals=set(fs.nonlocals), globals=set(fs.globals), scope_vars=list(r[0]), nouts=r[2]))
+            except Exception as e:  # noqa
+                rec.records.append(dict(error=repr(e), src=rec.src))
+            return r
+        control_flow.ControlFlowTransformer._get_block_vars = wrapped
+        return self
+
+    def __exit__(self, *a):
+        self.cf.ControlFlowTransformer._get_block_vars = self.orig
+
+
+def header_bound_names(node):
+    """names a loop header itself binds: the for target; names bound by an assignment expression in the test / iterable"""
+    out = set()
+    hdr = [node.test] if isinstance(node, ast.While) else [node.target, node.iter]
+    for h in hdr:
+        for n in ast.walk(h):
+            if isinstance(n, ast.Name) and isinstance(n.ctx, ast.Store):
+                out.add(n.id)
+    return out
+
+
+def real_context_cases(records, start):
+    """the recorded contexts restricted to simple names, in the format of blockvars_cases (composite state is validated by the
+    oracle only); plus the violations of `live-out of a loop is live at its header` (hypothesis of tracing_while/for_sound)"""
+    cases, loop_bad = [], []
+    nloops = 0
+    for r in records:
+        if 'error' in r:
+            continue
+        if any(v.is_composite() for v in r['scope_vars']):
+            continue
+
+        def simple(qs):
+            return sorted(str(q) for q in qs if not q.is_composite())
+        cases.append((start + len(cases), simple(r['modified']), simple(r['live_in']), simple(r['live_out']), simple(r['nonlocals']),
+                      simple(r['globals']), [str(v) for v in r['scope_vars']], r['nouts']))
+        if r['kind'] in ('While', 'For'):
+            nloops += 1
+            missing = set(simple(r['live_out'])) - set(simple(r['live_in'])) - header_bound_names(r['node'])
+            if missing:
+                loop_bad.append((sorted(missing), r['kind'], r['src']))
+    return cases, loop_bad, nloops
+
+
 def protocol_cases(rnd, n):
     """tiny concrete instances of the tracing protocol run through TracingBackend over a dict store: bodies are lists of
     assignments t := x + y + k over the pool a b c d i; every while body first increments its test variable"""
@@ -450,12 +517,37 @@ def _run_pure(fn, mutation=False):
         return ('raise', convrun.canon_exc(type(e).__name__))
 
 
+def blockvars_compare(cases, name):
+    """evaluates the Coq model of _get_block_vars on the cases (index, modified, live_in, live_out, nonlocals, globals, scope_vars,
+    nouts) and compares with what the real function returned; None when all agree"""
+    lines = ['(%d, mkctx %s %s %s %s %s, %s, %d)' % (i, coq_strs(m), coq_strs(li), coq_strs(lo), coq_strs(nl), coq_strs(gl),
+                                                   coq_strs(sv), no) for i, m, li, lo, nl, gl, sv, no in cases]
+    body = ['From Coq Require Import List String Bool Arith.', 'Import ListNotations.',
+            'Require Import MV.Ctrl.BlockSyntax MV.Generated.C02_gen MV.Ctrl.BlockVars.', 'Local Open Scope string_scope.',
+            'Definition same_set (a b : list name) : bool := forallb (fun x => mem x b) a && forallb (fun x => mem x a) b.',
+            'Definition ok (c : nat * ctx * list name * nat) : bool := match c with (_, cx, sv, no) =>',
+            '  Nat.eqb (nouts cx) no && Nat.eqb (List.length (state cx)) (List.length sv) && same_set (outs cx) (firstn no sv) && same_set (ins cx) (skipn no sv) end.',
+            'Definition cases : list (nat * ctx * list name * nat) := [', ';\n'.join(lines), '].',
+            'Eval vm_compute in map (fun c => match c with (i, _, _, _) => i end) (filter (fun c => negb (ok c)) cases).']
+    rc, out = vlib.coq_eval('C02', name, '\n'.join(body), timeout=600)
+    bad = vlib.parse_coq_list_of_nat(out) if rc == 0 else None
+    if bad is None:
+        return 'model evaluation failed: ' + out[-400:]
+    if bad:
+        byid = dict((c[0], c) for c in cases)
+        return 'model and _get_block_vars disagree, e.g. on %r' % (byid[bad[0]][1:],)
+    return None
+
+
 def check(run):
     quick = run.tier == 'quick'
     run.rule = ('(a) random (modified, live_in, live_out, nonlocals, globals) sets through the real _get_block_vars vs the Coq model; '
                 '(b) seeded pure, definitely-assigned programs (assign/aug/tuple, if/elif/else, bounded while, for, break/continue/'
                 'return at any depth) converted with a tracing backend injected for if_stmt/while_stmt/for_stmt and compared with the '
-                'original; non-trivial = distinct program in which the backend ran at least 2 operator calls')
+                'original; non-trivial = distinct program in which the backend ran at least 2 operator calls; (a\') concrete if/while/for '
+                'protocol instances over a dict store through TracingBackend vs the Coq protocol model of the semantic theorems; (c) every '
+                'context the real _get_block_vars was applied to while those programs were converted vs the model, and the loop '
+                'theorems\' hypothesis live_out <= live_in (modulo names the header binds) on the real annotations')
     tie_ok, tie_msg = True, ''
     try:
         generate()
@@ -469,21 +561,7 @@ def check(run):
     cases = blockvars_cases(rnd, 400 if quick else 4000)
     run.count(len(cases))
     if tie_ok:
-        lines = ['(%d, mkctx %s %s %s %s %s, %s, %d)' % (i, coq_strs(m), coq_strs(li), coq_strs(lo), coq_strs(nl), coq_strs(gl),
-                                                       coq_strs(sv), no) for i, m, li, lo, nl, gl, sv, no in cases]
-        body = ['From Coq Require Import List String Bool Arith.', 'Import ListNotations.',
-                'Require Import MV.Ctrl.BlockSyntax MV.Generated.C02_gen MV.Ctrl.BlockVars.', 'Local Open Scope string_scope.',
-                'Definition same_set (a b : list name) : bool := forallb (fun x => mem x b) a && forallb (fun x => mem x a) b.',
-                'Definition ok (c : nat * ctx * list name * nat) : bool := match c with (_, cx, sv, no) =>',
-                '  Nat.eqb (nouts cx) no && Nat.eqb (List.length (state cx)) (List.length sv) && same_set (outs cx) (firstn no sv) && same_set (ins cx) (skipn no sv) end.',
-                'Definition cases : list (nat * ctx * list name * nat) := [', ';\n'.join(lines), '].',
-                'Eval vm_compute in map (fun c => match c with (i, _, _, _) => i end) (filter (fun c => negb (ok c)) cases).']
-        rc, out = vlib.coq_eval('C02', 'blockvars', '\n'.join(body), timeout=600)
-        bad = vlib.parse_coq_list_of_nat(out) if rc == 0 else None
-        if bad is None:
-            corr_bad = 'model evaluation failed: ' + out[-400:]
-        elif bad:
-            corr_bad = 'model and _get_block_vars disagree, e.g. on %r' % (cases[bad[0]][1:],)
+        corr_bad = blockvars_compare(cases, 'blockvars')
         run.extra['blockvars_cases'] = len(cases)
     # (a') the protocol model of the semantic theorem against the backend the oracle injects
     if tie_ok and not corr_bad:
@@ -505,11 +583,14 @@ def check(run):
     old = api._TRANSPILER
     tr = make_transpiler()
     api._TRANSPILER = tr
+    recorder = BlockVarsRecorder()
+    recorder.__enter__()
     try:
         mod = convrun.load_module(allsrc)
         mod.__dict__.update(pure_world_globals())
         for i, src in enumerate(allsrc):
             f = getattr(mod, 'f%d' % i)
+            recorder.src = src
             try:
                 with warnings.catch_warnings():
                     warnings.simplefilter('ignore')
@@ -543,8 +624,20 @@ def check(run):
                 run.sample({'program': src, 'result': a, 'operator_calls': ncalls})
         run.extra['programs'] = len(allsrc)
     finally:
+        recorder.__exit__()
         api._TRANSPILER = old
         convrun.cleanup()
+    # (c) the contexts the formulas were really applied to while those programs were converted: against the model, and
+    #     the loop theorems' hypothesis `what is live after a loop is live at its header` on the real annotations
+    real_cases, loop_bad, nloops = real_context_cases(recorder.records, 100000)
+    run.extra['real_contexts'] = len(real_cases)
+    run.extra['real_loop_contexts'] = nloops
+    run.count(len(real_cases))
+    if tie_ok and real_cases and not corr_bad:
+        corr_bad = blockvars_compare(real_cases, 'realctx')
+    for missing, kind, src in loop_bad[:1]:
+        failures.append(('live after the %s loop but not live at its header (hypothesis of tracing_while_sound / tracing_for_sound '
+                         'fails on the real annotations): %s' % (kind, ', '.join(missing)), src))
     seen = set()
     for what, src in failures:
         key = re.sub(r'\d+', 'N', what)[:40]
